@@ -1,0 +1,59 @@
+//go:build verif
+
+package client
+
+// Hooks for the verification harness (properties C03, C05): read and set the
+// interleaved-mode state of a client and call the per-exchange functions directly.
+
+import (
+	"context"
+	"net"
+	"time"
+
+	"github.com/scionproto/scion/pkg/snet"
+
+	"example.com/scion-time/net/ntp"
+	"example.com/scion-time/net/udp"
+)
+
+type VerifC03Prev struct {
+	Reference   string
+	Interleaved bool
+	CTxTime     ntp.Time64
+	CRxTime     ntp.Time64
+	SRxTime     ntp.Time64
+}
+
+func VerifC03PrevIP(c *IPClient) VerifC03Prev {
+	return VerifC03Prev{c.prev.reference, c.prev.interleaved, c.prev.cTxTime, c.prev.cRxTime, c.prev.sRxTime}
+}
+
+func VerifC03SetPrevIP(c *IPClient, p VerifC03Prev) {
+	c.prev.reference = p.Reference
+	c.prev.interleaved = p.Interleaved
+	c.prev.cTxTime = p.CTxTime
+	c.prev.cRxTime = p.CRxTime
+	c.prev.sRxTime = p.SRxTime
+}
+
+func VerifC03PrevSCION(c *SCIONClient) VerifC03Prev {
+	return VerifC03Prev{c.prev.reference, c.prev.interleaved, c.prev.cTxTime, c.prev.cRxTime, c.prev.sRxTime}
+}
+
+func VerifC03SetPrevSCION(c *SCIONClient, p VerifC03Prev) {
+	c.prev.reference = p.Reference
+	c.prev.interleaved = p.Interleaved
+	c.prev.cTxTime = p.CTxTime
+	c.prev.cRxTime = p.CRxTime
+	c.prev.sRxTime = p.SRxTime
+}
+
+func VerifC03MeasureIP(ctx context.Context, c *IPClient, localAddr, remoteAddr *net.UDPAddr) (
+	time.Time, time.Duration, error) {
+	return c.measureClockOffsetIP(ctx, ipMetrics.Load(), localAddr, remoteAddr)
+}
+
+func VerifC03MeasureSCION(ctx context.Context, c *SCIONClient, localAddr, remoteAddr udp.UDPAddr,
+	path snet.Path) (time.Time, time.Duration, error) {
+	return c.measureClockOffsetSCION(ctx, scionMetrics.Load(), localAddr, remoteAddr, path)
+}
